@@ -13,68 +13,9 @@ from vlib import paths
 from props import _simlib as S
 
 
-# ------------------------------------------------------------------------------------------
-# deep snapshots (vars()-level, numpy arrays by value)
-
-def snap(x, memo=None):
-    import qutip
-    if memo is None:
-        memo = {}
-    if x is None or isinstance(x, (bool, int, str, bytes)):
-        return x
-    if isinstance(x, (float, complex)):
-        return ("num", repr(x))
-    if isinstance(x, np.generic):
-        return ("num", repr(x.item()))
-    if isinstance(x, np.ndarray):
-        return ("nd", x.shape, str(x.dtype), x.tobytes() if x.dtype != object else tuple(snap(v, memo) for v in x.ravel()))
-    if isinstance(x, qutip.Qobj):
-        return ("Qobj", json.dumps(x.dims), snap(np.asarray(x.full()), memo))
-    if id(x) in memo:
-        return ("cycle", memo[id(x)])
-    if isinstance(x, (list, tuple)):
-        memo[id(x)] = len(memo)
-        return (type(x).__name__,) + tuple(snap(v, memo) for v in x)
-    if isinstance(x, dict):
-        memo[id(x)] = len(memo)
-        return ("dict",) + tuple(sorted(((repr(k), snap(v, memo)) for k, v in x.items()), key=lambda kv: kv[0]))
-    if isinstance(x, (set, frozenset)):
-        return ("set",) + tuple(sorted(repr(v) for v in x))
-    if callable(x) and not hasattr(x, "__dict__"):
-        return ("fn", getattr(x, "__qualname__", repr(type(x))))
-    if isinstance(x, type) or type(x).__name__ in ("function", "method", "builtin_function_or_method", "partial"):
-        return ("fn", getattr(x, "__qualname__", type(x).__name__))
-    if hasattr(x, "__dict__"):
-        memo[id(x)] = len(memo)
-        return (type(x).__name__, snap(vars(x), memo))
-    if hasattr(x, "__slots__"):
-        memo[id(x)] = len(memo)
-        return (type(x).__name__,) + tuple((s, snap(getattr(x, s, None), memo)) for s in x.__slots__)
-    return ("repr", type(x).__name__)
-
-
-def close(a, b, tol=1e-10):
-    """equality of snapshots / results up to `tol` on numbers (results of repeated float computations)"""
-    if type(a) != type(b):
-        return False
-    if isinstance(a, tuple):
-        if len(a) != len(b):
-            return False
-        if a and a[0] == "num" and len(a) == 2:
-            try:
-                return abs(complex(a[1].replace("(", "").replace(")", "")) - complex(b[1].replace("(", "").replace(")", ""))) <= tol
-            except ValueError:
-                return a == b
-        if a and a[0] == "nd" and len(a) == 4 and isinstance(a[3], bytes) and isinstance(b[3], bytes):
-            if a[1] != b[1] or a[2] != b[2]:
-                return False
-            x = np.frombuffer(a[3], dtype=a[2])
-            y = np.frombuffer(b[3], dtype=b[2])
-            if x.dtype.kind in "fc":
-                return bool(np.allclose(x, y, atol=tol, rtol=0, equal_nan=True))
-            return a[3] == b[3]
-        return all(close(u, v, tol) for u, v in zip(a, b))
-    return a == b
+from props._c16_snap import snap, close
+from props._c16_fresh import fresh
+from props import _c16_pulses as PN
 
 
 # ------------------------------------------------------------------------------------------
@@ -293,7 +234,7 @@ def gates_view(qc):
     return out
 
 
-def oracle_qpure(w, queries=None):
+def oracle_qpure(w, queries=None, fresh_ref=True):
     """Every query / transformation / export / drawing leaves the circuit and each of its gate objects exactly as
     they were (deep snapshot, vars()-level), and asked again returns an equal result."""
     try:
@@ -301,6 +242,7 @@ def oracle_qpure(w, queries=None):
     except Exception as e:
         return False, "not constructible: " + type(e).__name__
     names = queries or w.get("queries") or sorted(QUERIES)
+    refs = None
     for name in names:
         before, view = snap(qc), gates_view(qc)
         first = run_query(name, qc)
@@ -319,9 +261,55 @@ def oracle_qpure(w, queries=None):
             return True, f"query {name} asked twice returns different results"
         if snap(qc) != before:
             return True, f"query {name} (second call) changed the circuit passed in"
-    return False, f"{len(names)} queries left the circuit unchanged"
+        if fresh_ref:
+            # module-level state is not reset by constructing new objects: the reference is a NEW PROCESS
+            if refs is None:
+                # one new process per circuit; there the queries are asked in the opposite order, each on a circuit
+                # object of its own
+                refs = fresh().call("queries", {"names": list(names), "w": {k: w[k] for k in ("n", "ncb", "gates")}})
+                refs = refs[1] if refs[0] == "ok" else {}
+            ref = ("ok", refs[name]) if name in refs else ("none",)
+            if ref[0] == "ok" and not close(first, ref[1]):
+                return True, (f"query {name}: the result differs from the same query on an equal circuit in a new process "
+                              f"in which nothing was called before (earlier calls of this process left state behind)"
+                              + _first_diff(first, ref[1]))
+    return False, f"{len(names)} queries left the circuit unchanged" + (", results equal to a new process's" if fresh_ref else "")
 
 
+def _first_diff(a, b):
+    """for text results: the first line present in one and not in the other"""
+    try:
+        if a[0] == "ok" and b[0] == "ok" and isinstance(a[1], str) and isinstance(b[1], str):
+            la, lb = a[1].splitlines(), b[1].splitlines()
+            miss = [x for x in lb if x not in la][:2]
+            extra = [x for x in la if x not in lb][:2]
+            return f"; lines only in the new process's result: {miss}; only here: {extra}"
+    except Exception:
+        pass
+    return ""
+
+
+def fresh_query(a):
+    return run_query(a["name"], build_lib_circuit(a["w"]))
+
+
+def fresh_queries(a):
+    return {name: run_query(name, build_lib_circuit(a["w"])) for name in reversed(a["names"])}
+
+
+def fresh_program_req(a):
+    dev = a["dev"]
+    return fresh_program(dev, a["circ"], [tuple(t) for t in a["tokens"]], {})
+
+
+FRESH_FUNCS = {"query": fresh_query, "queries": fresh_queries, "program": fresh_program_req}
+
+
+# gates without a native QASM name: the exporter emits a `gate …{}` definition and records the name in ITS table
+W_QASM = {"kind": "qpure", "n": 2, "ncb": 0, "queries": ["qasm"],
+          "gates": [{"name": "SNOT", "targets": [0], "controls": None, "arg": None, "cc": None, "ccv": None},
+                    {"name": "CS", "targets": [1], "controls": [0], "arg": None, "cc": None, "ccv": None},
+                    {"name": "SQRTNOT", "targets": [1], "controls": None, "arg": None, "cc": None, "ccv": None}]}
 W_DRAW = {"kind": "qpure", "n": 2, "ncb": 0, "queries": ["draw_text"],
           "gates": [{"name": "ISWAP", "targets": [1, 0], "controls": None, "arg": None, "cc": None, "ccv": None}]}
 
@@ -984,6 +972,16 @@ def oracle_device(dev):
             fr = fresh_program(dev, c[1], tokens, cache)
             if not close(rec["result"], fr["result"]):
                 return True, f"call {j} load_circuit returns a different program than a fresh processor"
+            pkey = ("pristine", c[1], tuple(tokens))
+            if pkey not in cache:
+                # the same on a fresh processor in a NEW PROCESS (module-level state is not reset by new objects)
+                ref = fresh().call("program", {"dev": {"kind": dev["kind"], "n": dev["n"], "circuits": dev["circuits"]},
+                                               "circ": c[1], "tokens": [list(t) for t in tokens]})
+                cache[pkey] = ref[1] if ref[0] == "ok" else None
+            pr = cache[pkey]
+            if pr is not None and not (close(rec["result"], pr["result"]) and close(rec["proc"]["pulses"], pr["pulses"])):
+                return True, (f"call {j} load_circuit(circuit {c[1]}, args {list(tokens)}): program / pulses differ from a "
+                              f"fresh processor in a new process in which nothing was called before")
             if not close(rec["proc"]["pulses"], fr["pulses"]):
                 return True, f"call {j}: pulses held after load_circuit differ from a fresh processor"
             if abs(rec["proc"]["phase"] - fr["phase"]) > 1e-9:
@@ -1026,6 +1024,8 @@ def oracle(w):
         return oracle_share(w)
     if w["kind"] == "noise":
         return oracle_noise(w)
+    if w["kind"] == "pnoise":
+        return PN.oracle_pnoise(w)
     return oracle_device(dev_of(w))
 
 
@@ -1084,6 +1084,11 @@ class C16(PropertyCheck):
         "QipVerif.C16.transform_result_independent",
         "QipVerif.C16.noise_fresh_equivalent",
         "QipVerif.C16.pulse_padding_same_function",
+        "QipVerif.C16.noisy_pulses_unchanged",
+        "QipVerif.C16.noisy_fresh_equivalent",
+        "QipVerif.C16.noisy_repeat_equal",
+        "QipVerif.C16.noisy_result_new",
+        "QipVerif.C16.C16_counterexample_noisy_pulses_accumulate",
         "QipVerif.C16.C16_counterexample_reverse_shares",
         "QipVerif.C16.C16_counterexample_chain_shares_lists",
         "QipVerif.C16.C16_counterexample_noise_rewrites",
@@ -1355,7 +1360,73 @@ class C16(PropertyCheck):
             if not any(x.startswith("exc") for x in seen) and seen != model:
                 res.disagree({"deco": [coeff, tln]}, model, seen, "DecoherenceNoise.coeff after each use", None)
 
-        # 6. stored pulses under get_qobjevo padding: the C14 model's padCoeff / stepAt on the real arrays
+        # 6. pulses held by a processor under noisy evaluation (Model/SimPulse.lean): one processor with noise objects
+        #    of every shipped class, histories of get_noisy_pulses / get_qobjevo(noisy) / run_state
+        self.pcfg = pcfg = PN.probe_pcfg(paths.REPO)
+        res.notes.append("copies of the pulses made by Processor.get_noisy_pulses / process_noise, read from the source and "
+                         "confirmed by behaviour: " + json.dumps(pcfg))
+        if not (pcfg["procCopy"] or pcfg["noiseCopy"] == "deep"):
+            res.disagree({"pcfg": pcfg}, "hypothesis of C16.noisy_pulses_unchanged: procCopy = true or noiseCopy = deep",
+                         json.dumps(pcfg), "the code makes no deep copy between Processor.pulses and the noise objects: "
+                         "the hypothesis of the theorems on noisy evaluation is not met", PN.W_AMP)
+        npn = 2500 if ctx.thorough else 120
+        wits, impls, lines = [], [], []
+        for it in range(npn):
+            w = PN.gen_pnoise(rng) if it >= len(PN.FIXED) else PN.FIXED[it]
+            with contextlib.redirect_stdout(io.StringIO()):
+                try:
+                    out, ideals, nd = PN.run_impl(w)
+                except Exception as e:
+                    res.case(w, nontrivial=False, tags=["stream=pulse-noise", "not-constructible=" + type(e).__name__])
+                    continue
+            line = PN.encode(w, pcfg, ideals, nd)
+            wits.append(w)
+            impls.append(out)
+            lines.append(line)
+        outs = iter(drv.run([l for l in lines if l]))
+        for w, out, line in zip(wits, impls, lines):
+            classes = sorted({"noise=" + s_["c"] for s_ in w["noise"]} | ({"noise=zz"} if w.get("zz_builtin") else set())
+                             | ({"noise=t1t2"} if (w.get("t1") is not None or w.get("t2") is not None) else set()))
+            tags = ["stream=pulse-noise", "processor=" + w["proc"], "evaluations=%d" % len(w["calls"])] + classes + \
+                sorted({"call=" + c[0] for c in w["calls"]})
+            if line is None:
+                res.case(w, nontrivial=False, tags=tags + ["outside-model=invalid-t1-t2"])
+                continue
+            o = next(outs)
+            res.case(w, nontrivial=len(w["calls"]) >= 2, tags=tags)
+            chunks = o.split(" ; ")
+            if len(chunks) != len(w["calls"]):
+                res.disagree(w, o[:300], "-", "model answer not understood", w)
+                continue
+            for k, (c, (verdict, ret, held), ch) in enumerate(zip(w["calls"], out, chunks)):
+                head, _, heldm = ch.partition(" @")
+                if verdict.startswith("err other:") and verdict.split(":")[1] in NOT_EVALUABLE:
+                    res.hist["pulse-noise-not-evaluable=" + verdict.split(":")[1]] = \
+                        res.hist.get("pulse-noise-not-evaluable=" + verdict.split(":")[1], 0) + 1
+                    break
+                hi = "|".join(PN.show_pv(t) for t in held) if held else "e"
+                diff = None
+                if hi != heldm:
+                    diff = f"call {k} {c}: pulses held by the processor afterwards: model {heldm}, implementation {hi}"
+                elif verdict.startswith("err other"):
+                    diff = f"call {k} {c}: implementation raised {verdict[10:]}, model {head}"
+                elif verdict == "err index" and head != "err index":
+                    diff = f"call {k} {c}: implementation IndexError, model {head}"
+                elif verdict == "ok" and not head.startswith("ok"):
+                    diff = f"call {k} {c}: implementation ok, model {head}"
+                elif verdict == "ok" and ret is not None:
+                    ri = "|".join(PN.show_pv(t) for t in ret) if ret else "e"
+                    if head != "ok " + ri:
+                        diff = f"call {k} {c}: pulses returned: model {head[3:]}, implementation {ri}"
+                if diff:
+                    res.disagree(w, ch[:300], "see `what`", diff, w)
+                    break
+        res.notes.append(f"{npn} processors with noise objects (ControlAmpNoise scalar/array, RandomNoise with a scripted "
+                         "generator, RelaxationNoise, DecoherenceNoise, ZZCrossTalk, processor t1/t2, user Noise subclasses "
+                         "returning tuple / list / None) x 2-5 noisy evaluations: pulses returned and pulses held after "
+                         "every call as (ideal, coherent-noise tokens, Lindblad-noise tokens) against Model/SimPulse.lean")
+
+        # 7. stored pulses under get_qobjevo padding: the C14 model's padCoeff / stepAt on the real arrays
         res.notes.append("pulse padding: see pulses_snap (pulses compared as functions of time; theorem "
                          "C16.pulse_padding_same_function on the C14 model)")
         res.notes.append("observation (not a violation: the aliasing clause is about results of run/run_statistics): "
@@ -1373,7 +1444,7 @@ class C16(PropertyCheck):
     def _sweep(self, ctx, budget_s, count):
         rng = ctx.rng
         t0 = time.time()
-        for w in (W_ALIAS, W_PHASE, W_GETTER, W_DRAW, W_SHAPE, W_SHARE_REV, W_SHARE_CHAIN, W_NOISE):
+        for w in (W_ALIAS, W_PHASE, W_GETTER, W_DRAW, W_QASM, W_SHAPE, W_SHARE_REV, W_SHARE_CHAIN, W_NOISE) + tuple(PN.FIXED):
             f, d = oracle(w)
             if f:
                 yield w, d
@@ -1416,6 +1487,16 @@ class C16(PropertyCheck):
             if r < 0.5:
                 w = rand_relax(rng)
                 f, d = oracle(w)
+                if f:
+                    yield w, d
+                continue
+            if r < 0.64:
+                w = PN.gen_pnoise(rng)
+                try:
+                    with contextlib.redirect_stdout(io.StringIO()):
+                        f, d = oracle(w)
+                except Exception as e:
+                    f, d = False, "not applicable: " + repr(e)[:100]
                 if f:
                     yield w, d
                 continue
